@@ -455,3 +455,71 @@ func TestC19_R_F18_F19(t *testing.T) {
 		}
 	}
 }
+
+// The generators on a store that refuses ONE write (at open, while writing, at commit; any error value): a generator may
+// report the failure in its own way (an error, a failed assertion), but an entry it hands out without complaint has to be
+// the description of a DAG that is in the store - the same claim, made in an environment the fault-free cases never meet.
+func TestC19_P_GeneratorsOnFlakyStores(t *testing.T) {
+	ev := newEvid(t, "case = (generator in {UnixFSFile, GenerateFile, UnixFSDirectory, GenerateDirectory, BuildDirectory}, seed, target size 1..8 KiB, ONE write of the run refused at open / while writing / at commit with a value from the fault palette); oracle = if the generator reports success (no error, no failed assertion) the entry it returned must match the stored DAG read back from its root (as in TestC19_P_FixtureGenerators); non-trivial = the refused write happened (the generator wrote at least that many blocks); distinct by (generator, stage, outcome, size bucket)")
+	rapid.Check(t, func(t *rapid.T) {
+		gen := rapid.SampledFrom([]string{"UnixFSFile", "GenerateFile", "UnixFSDirectory", "GenerateDirectory", "BuildDirectory"}).Draw(t, "generator")
+		seed := rapid.Uint64Range(1, 1<<62).Draw(t, "seed")
+		size := rapid.IntRange(1024, 8<<10).Draw(t, "size")
+		k := rapid.IntRange(1, 12).Draw(t, "failAt")
+		stage := rapid.SampledFrom([]string{"open", "write", "commit", "commit"}).Draw(t, "stage")
+		st := NewStore()
+		st.FaultKind = genWriteFaultKind(t)
+		switch stage {
+		case "open":
+			st.FailOpenAt = k
+		case "write":
+			st.FailWriteAt = k
+		default:
+			st.FailCommitAt = k
+		}
+		ls := st.LinkSystem()
+		r := &detReader{s: seed}
+		rec := &recT{}
+		var de testutil.DirEntry
+		var err error
+		p, stack := safe(func() {
+			switch gen {
+			case "UnixFSFile":
+				de, err = testutil.UnixFSFile(*ls, size, testutil.WithRandReader(r), testutil.WithChunker("size-256"))
+			case "GenerateFile":
+				de = testutil.GenerateFile(rec, ls, r, size)
+			case "UnixFSDirectory":
+				de, err = testutil.UnixFSDirectory(*ls, size, testutil.WithRandReader(r), testutil.WithShardBitwidth(rapid.SampledFrom([]int{0, 4}).Draw(t, "bitwidth")))
+			case "GenerateDirectory":
+				de = testutil.GenerateDirectory(rec, ls, r, size, rapid.Bool().Draw(t, "sharded"))
+			default:
+				var kids []testutil.DirEntry
+				for i := 0; i < 6; i++ {
+					f := testutil.GenerateFile(rec, ls, r, 300+i)
+					f.Path = fmt.Sprintf("/kid-%d.bin", i)
+					kids = append(kids, f)
+				}
+				de = testutil.BuildDirectory(rec, ls, kids, rapid.Bool().Draw(t, "sharded"))
+			}
+		})
+		outcome := "success"
+		if _, ok := p.(recFail); ok {
+			outcome = "failed-assertion"
+		} else if p != nil {
+			t.Fatalf("C19: %s (seed %d, size %d) on a store refusing write #%d at %s (%s) panicked: %v\n%s", gen, seed, size, k, stage, faultKindName(st.FaultKind), p, stack)
+		} else if err != nil {
+			outcome = "error"
+		}
+		happened := st.Opens >= k
+		st.FailOpenAt, st.FailWriteAt, st.FailCommitAt = 0, 0, 0
+		if outcome == "success" {
+			var cerr error
+			must(t, "read-back", func() { cerr = c19Check(ls, de, de.Root, de.Path, true, map[string]int{}, 0) })
+			if cerr != nil {
+				t.Fatalf("C19: %s (seed %d, size %d) on a store that refused write #%d at %s (%s; %d writes were opened) reported success, but the entry it returned does not match the stored DAG: %v", gen, seed, size, k, stage, faultKindName(st.FaultKind), st.Opens, cerr)
+			}
+		}
+		ev.Case(fmt.Sprintf("%s %s %s s=%s hit=%v", gen, stage, outcome, bucket(size/1024), happened), happened, "gen:"+gen, "stage:"+stage, "outcome:"+outcome, fmt.Sprintf("fault-happened:%v", happened))
+		ev.Sample(map[string]any{"generator": gen, "seed": seed, "size": size, "fail_at": k, "stage": stage, "outcome": outcome, "writes_opened": st.Opens})
+	})
+}
